@@ -257,6 +257,40 @@ def worker(job):
             else:
                 R.count("pack_rejections")
         R.sample(dict(schema=ssrc, value=v, secret=secret, out_of_range=oob, raised=repr(out.exc)[:60] if out.exc else None), cap=5)
+    # ---------------- unpack of bits the caller supplies (not produced by pack) ----------------------------------
+    for _ in range(job["n"]):
+        mod = rnd.choice([2, 3, 5, 6, 7, 10, 12, 13, 100, 255, 256, 1000])
+        nb = (mod - 1).bit_length()
+        enc = rnd.choice([rnd.randrange(mod), mod - 1, 0] + ([mod, rnd.randrange(mod, 1 << nb), (1 << nb) - 1] if (1 << nb) > mod else []))
+        kind = rnd.choice(["PrivVal", "PrivValBool", "mixed-secret", "secret-then-plain", "plain-then-secret"])
+        srcs = []
+        for ix in range(nb):
+            b = (enc >> ix) & 1
+            k = kind
+            if kind == "mixed-secret":
+                k = rnd.choice(["PrivVal", "PrivValBool"])
+            elif kind == "secret-then-plain":
+                k = rnd.choice(["PrivVal", "PrivValBool"]) if ix == 0 else rnd.choice(["plain", "PrivVal"])
+            elif kind == "plain-then-secret":
+                k = "plain" if ix == 0 and nb > 1 else rnd.choice(["PrivVal", "PrivValBool"])
+            srcs.append(str(b) if k == "plain" else "%s(%d)" % (k, b))
+        bl = max(8, mod.bit_length() + 3)
+        src = "bits = [%s]\ny = PackIntMod(%d).unpack(bits, 0)\n" % (", ".join(srcs), mod)
+        out = G.run_api(G.Prog(src, [], bl, 0), [], N, modulus=rnd.choice(moduli))
+        R.case(cell="unpack-supplied-bits|%s|%s" % (kind, "oob" if enc >= mod else "in"), key=(src, bl))
+        det = dict(src=src, inputs=[], bl=bl, p=out.snap["p"])
+        first_secret = not srcs[0].isdigit()
+        if enc < mod:
+            R.count("unpack_supplied_bits_in_range")
+            if out.exc is not None:
+                R.violation("unpack-in-range-raised", "bits encoding %d for PackIntMod(%d): %s" % (enc, mod, repr(out.exc)[:100]), **det)
+            elif plain(out.ns["y"]) != enc:
+                R.violation("unpack-differs", "bits encoding %d for PackIntMod(%d) unpacked to %r" % (enc, mod, plain(out.ns["y"])), **det)
+        elif first_secret:
+            # the library decides by the first bit whether the bits are secret (DESIGN 4/C16): then the bound must be enforced
+            R.count("unpack_supplied_bits_out_of_range")
+            if out.exc is None:
+                R.violation("unpack-out-of-range-accepted", "secret bits (%s) encoding %d accepted by PackIntMod(%d).unpack" % (kind, enc, mod), **det)
     return R.export()
 
 
